@@ -100,7 +100,10 @@ def main():
         for k in ("check_rounds", "first_round_missed"):
             if k in prev_meta:
                 meta[k] = prev_meta[k]
-        meta["rebased"] = "patch rebased onto the later fix: commits in /repo and re-validated"
+        if not args.skip_validate:
+            meta["rebased"] = "patch rebased onto the later fix: commits in /repo and re-validated"
+        elif "rebased" in prev_meta:
+            meta["rebased"] = prev_meta["rebased"]
     if not os.path.exists(patch):
         print("no patch", patch)
         return 2
